@@ -539,7 +539,7 @@ Qed.
    (a repeated SYN creates a new state and knocks again) *)
 Lemma syn_probe_knocks st ackok p :
   p_proto p = 0%N -> flag (p_flags p) 1 = true -> flag (p_flags p) 4 = false -> p_port p <> 22%N ->
-  knocks_of_probe st ackok p = [mkKnock KTcp (src_mac (p_src p)) dst_mac (src_ip (p_src p)) dst_ip (p_port p)].
+  knocks_of_probe st ackok p = [mkKnock KTcp (src_mac (p_src p)) dst_mac (src_ip (p_src p)) (dst_ip_of (p_dst p)) (p_port p)].
 Proof.
   intros Hp Hs Ha H22. unfold knocks_of_probe. rewrite Hp, tcp_knock_iff.
   cbn [t_parse_ok t_is_me t_port22 t_syn t_ack t_state t_table_ok].
@@ -888,3 +888,120 @@ Proof.
     do 5 (try destruct p as [p|p|]); try discriminate; try congruence.
 Qed.
 Close Scope N_scope.
+
+(* ================================================================ per destination *)
+(* a group's ports come only from knocks with the group's own source AND destination: probes
+   of different sensor addresses are never merged, and each (protocol, source, destination)
+   knocked has its own group *)
+Lemma groups_per_destination ks gs :
+  groups_exact ks gs ->
+  (forall g pr, In g gs -> In pr (r_ports (report_of g)) ->
+     exists k, In k ks /\ port_of k = pr /\ k_dip k = g_dip g /\ k_sip k = g_sip g /\
+               k_smac k = g_smac g /\ k_dmac k = g_dmac g /\ proto_of (k_kind k) = proto_of (g_kind g)) /\
+  (forall k, In k ks -> exists g, In g gs /\ g_dip g = k_dip k /\ g_sip g = k_sip k /\
+               In (port_of k) (r_ports (report_of g))) /\
+  (forall g1 g2, In g1 gs -> In g2 gs -> gkey g1 = gkey g2 -> g1 = g2).
+Proof.
+  intros (Hn & Hcov & Hg). split; [|split].
+  - intros g pr Hin Hpr. destruct (Hg g Hin) as (_ & _ & Hp). apply Hp in Hpr as (k & Hk & Hkey & Hpo).
+    exists k. unfold kkey, gkey in Hkey. injection Hkey as E1 E2 E3 E4 E5. repeat split; auto.
+  - intros k Hk. specialize (Hcov k Hk). apply in_map_iff in Hcov as (g & Hgk & Hin).
+    exists g. unfold kkey, gkey in Hgk. injection Hgk as E1 E2 E3 E4 E5. repeat split; auto.
+    destruct (Hg g Hin) as (_ & _ & Hp). apply Hp. exists k. repeat split; auto.
+    unfold kkey, gkey. congruence.
+  - intros g1 g2 H1 H2 E. clear Hcov Hg.
+    induction gs as [|g r IH]; [contradiction|]. cbn [map] in Hn. inversion Hn as [|? ? Hni Hnr]; subst.
+    destruct H1 as [<-|H1], H2 as [<-|H2]; auto.
+    + exfalso. apply Hni. rewrite E. apply in_map; auto.
+    + exfalso. apply Hni. rewrite <- E. apply in_map; auto.
+Qed.
+
+(* ================================================================ the knock queue *)
+From Coq Require Import Permutation.
+
+Lemma osomes_clear {A} (l : list (option A)) : forall i k,
+  nth_error l i = Some (Some k) -> Permutation (osomes l) (k :: osomes (clear_nth i l)).
+Proof.
+  induction l as [|x r IH]; intros i k H; [destruct i; discriminate|].
+  destruct i; cbn [nth_error] in H.
+  - injection H as ->. cbn [clear_nth osomes]. apply Permutation_refl.
+  - cbn [clear_nth]. destruct x as [y|]; cbn [osomes].
+    + eapply perm_trans; [apply perm_skip, (IH i k H)|apply perm_swap].
+    + apply IH; auto.
+Qed.
+
+Definition q_all (st : qstate) : list knock := osomes (q_pending st) ++ q_queue st ++ map fst (q_done st).
+
+(* one step loses nothing, duplicates nothing, and respects the capacity *)
+Lemma q_step_perm cap st s : Permutation (q_all (q_step cap st s)) (q_all st).
+Proof.
+  unfold q_all. destruct s as [i|t]; cbn [q_step].
+  - destruct (nth_error (q_pending st) i) as [[k|]|] eqn:E; try apply Permutation_refl.
+    destruct (Nat.ltb (length (q_queue st)) cap); [|apply Permutation_refl].
+    cbn [q_pending q_queue q_done]. apply osomes_clear in E.
+    symmetry. eapply perm_trans; [apply Permutation_app_tail, E|].
+    cbn [app]. rewrite <- !app_assoc. cbn [app].
+    rewrite (app_assoc (osomes (clear_nth i (q_pending st))) (q_queue st) (k :: map fst (q_done st))).
+    apply Permutation_cons_app. rewrite <- app_assoc. apply Permutation_refl.
+  - destruct (q_queue st) as [|k r] eqn:E; [rewrite E; apply Permutation_refl|].
+    cbn [q_pending q_queue q_done]. rewrite map_app. cbn [map fst].
+    apply Permutation_app_head. cbn [app].
+    symmetry. rewrite app_assoc. apply Permutation_cons_app.
+    rewrite app_nil_r. apply Permutation_refl.
+Qed.
+
+Lemma q_step_cap cap st s : (length (q_queue st) <= cap)%nat -> (length (q_queue (q_step cap st s)) <= cap)%nat.
+Proof.
+  intros H. destruct s as [i|t]; cbn [q_step].
+  - destruct (nth_error (q_pending st) i) as [[k|]|]; auto.
+    destruct (Nat.ltb (length (q_queue st)) cap) eqn:E; auto.
+    cbn [q_queue]. rewrite app_length. cbn [length]. apply Nat.ltb_lt in E. lia.
+  - destruct (q_queue st) as [|k r] eqn:E; [rewrite E; auto|]. cbn [q_queue]. cbn [length] in H. lia.
+Qed.
+
+Lemma q_run_inv cap steps : forall st,
+  (length (q_queue st) <= cap)%nat ->
+  Permutation (q_all (q_run cap steps st)) (q_all st) /\ (length (q_queue (q_run cap steps st)) <= cap)%nat.
+Proof.
+  unfold q_run. induction steps as [|s r IH]; intros st H; cbn [fold_left].
+  - split; auto.
+  - destruct (IH (q_step cap st s) (q_step_cap cap st s H)) as (Hp & Hc). split; auto.
+    eapply perm_trans; [exact Hp|apply q_step_perm].
+Qed.
+
+(* for EVERY schedule of producer and detector steps: the knocks still to be sent, those in
+   the queue and those received are together exactly the knocks of the burst *)
+Lemma q_no_knock_lost cap ks steps :
+  let st := q_run cap steps (q_init ks) in
+  Permutation (osomes (q_pending st) ++ q_queue st ++ map fst (q_done st)) ks /\
+  (length (q_queue st) <= cap)%nat.
+Proof.
+  cbv zeta. destruct (q_run_inv cap steps (q_init ks)) as (Hp & Hc); [cbn; lia|].
+  split; auto. eapply perm_trans; [exact Hp|].
+  unfold q_all, q_init. cbn [q_pending q_queue q_done map app]. rewrite app_nil_r.
+  clear. induction ks as [|k r IH]; cbn [map osomes]; auto.
+Qed.
+
+Lemma groups_exact_perm ks ks' gs :
+  (forall k, In k ks <-> In k ks') -> groups_exact ks gs -> groups_exact ks' gs.
+Proof.
+  intros Hi (Hn & Hc & Hg). split; [auto|]. split.
+  - intros k Hk. apply Hc, Hi, Hk.
+  - intros g Hin. destruct (Hg g Hin) as ((k & Hk & E) & Hnd & Hp). split; [|split; auto].
+    + exists k. split; auto. apply Hi; auto.
+    + intros pr. rewrite Hp. split; intros (k' & Hk' & R); exists k'; (split; [apply Hi; auto|auto]).
+Qed.
+
+(* hence, whatever the schedule, once it has run to completion the detector holds exactly one
+   group per (protocol, source, destination) with exactly the ports of ALL knocks of the burst *)
+Lemma q_complete_exact cap ks steps :
+  let st := q_run cap steps (q_init ks) in
+  q_complete st ->
+  Permutation (map fst (q_done st)) ks /\
+  groups_exact ks (d_groups (run_knocks (q_done st) det0)).
+Proof.
+  cbv zeta. intros (Hp & Hq). destruct (q_no_knock_lost cap ks steps) as (Hperm & _).
+  rewrite Hp, Hq in Hperm. cbn [app] in Hperm. split; auto.
+  eapply groups_exact_perm; [|apply run_knocks_exact].
+  intros k. split; intros H; [eapply Permutation_in; eauto|eapply Permutation_in; [symmetry|]; eauto].
+Qed.
